@@ -43,7 +43,7 @@ class C20(SCheck):
     def gen_plans(self, r, case, k):
         plans = []
         for j in range(k):
-            s = gen.sched_plan(r, est=case["n"] * 30)
+            s = gen.sched_plan(r, est=case["n"] * 30, ustep=0)
             if j % 2 == 0:
                 s = dict(s, starve=["worker", "opener"] if case["steps"][0]["inv"]["driver"] == "parfile" else ["worker"], starve_p=0.002)
             plans.append({"seed": r.randrange(1 << 48), "sched": s})
